@@ -3,6 +3,7 @@
 // estimation mode. Dense deterministic grids are enumerated; sketch cases are generated.
 #include "vf/core.hpp"
 #include "vf/items.hpp"
+#include "vf/hll_model.hpp"
 #include <binomial_bounds.hpp>
 #include <theta_sketch.hpp>
 #include <theta_union.hpp>
@@ -199,8 +200,14 @@ void prop_sketch(const Case& cs) {
     int mode = bytes[7] & 3;
     est_mode = mode == 2;
     if (mode < 2 && n > 0) {
-      // coupon modes: documented small-range accuracy (coupon RSE 0.409 / 2^13 ~ 5e-5); 1e-3 leaves 20 sigma
-      VF_CHECK(std::fabs(sk.get_estimate() - n) <= 1e-3 * n + 1e-6, "hll-coupon-mode-accuracy", "coupon-mode estimate " << sk.get_estimate() << " for " << n << " distinct");
+      // coupon modes: documented small-range accuracy (coupon RSE 0.409 / 2^13 ~ 5e-5); 1e-3 leaves 20 sigma. The sketch can only
+      // count distinct COUPONS (26 address bits + value): two items may share one (about n^2 / 2^28 times per sketch), so the reference
+      // count is the number of distinct coupons of the inputs, computed with the independent reference hash
+      std::set<uint32_t> coupons;
+      for (uint64_t i = 0; i < n; ++i) { uint32_t c; if (vf::ref_hll_item_coupon(vf::Item{vf::T_U64, base + i}, c)) coupons.insert(c); }
+      const double d = static_cast<double>(coupons.size());
+      if (coupons.size() != n) vf::label("hll-coupon-collision");
+      VF_CHECK(std::fabs(sk.get_estimate() - d) <= 1e-3 * d + 1e-6, "hll-coupon-mode-accuracy", "coupon-mode estimate " << sk.get_estimate() << " for " << n << " distinct items with " << coupons.size() << " distinct coupons");
     }
     if (n == 0) VF_CHECK(sk.get_estimate() == 0.0, "hll-empty", "empty estimate");
     if (mode == 2) {
